@@ -77,6 +77,11 @@ def check(run):
                   'the rotation map must start from the identity table')
         run.check(inits.get('ps', [None])[0] == 'zeros', 'R12.init', f, 'ps = zeros(2N)',
                   'the rotation map must start from zero phases')
+    # the rotation gate acts on the support of its generator (condense): a qubit is in the support iff (x, z) != (0, 0)
+    from .C18 import support_mask
+    for urel in (K.PY_U, K.TC_U):
+        support_mask(run, repo.func(urel, 'condense'))
+    run.floor('R12.support', 2)
     # __neg__ adds 2 (so that rotating by -G is the inverse rotation): constant checked here, table under C20
     for rel in (K.PY_P, K.TC_P):
         f = repo.func(rel, 'Pauli.__neg__')
